@@ -44,13 +44,17 @@ CHECKS = {
             BASE_NOTE + "The step counter is a cost model of a priority-order backtracking matcher (what CPython's sre is); sre's constants and optimisations are not modelled; time is measured, not proved.",
             "DESIGN.md §5 C07"),
     "C01": ("proof",
-            "Coq proof that converter, strip_empty, collapse and writer preserve reading-order text + end-to-end correspondence + independent live-text oracle",
-            "Theorems over all document trees, style maps without :separator and options: the text of whatever the visitor emits is the reading-order text "
-            "(note markers [k] in place, notes after the body, `!` content omitted), strip_empty and collapse keep text, and the returned HTML lexes back (independent "
-            "lexer) to exactly that text. The XML->document half is tied by in-kernel correspondence of Model/Reader.v with the real reader on generated packages, and "
-            "an independent live-text function computed on the package is compared with the implementation's output.",
-            BASE_NOTE + "The reader half (XML -> document elements) is correspondence-level, not yet a theorem. Domain: a deleted paragraph mark is followed by a paragraph in the same container; fldChar balanced.",
-            "DESIGN.md §5 C01"),
+            "Coq proof END TO END: XML of the body -> live items (reader half) -> converter, strip_empty, collapse, writer -> text of the returned HTML, + end-to-end correspondence + independent live-text oracle",
+            "Theorems: (reader) for every part body in the domain the elements the reader returns carry exactly the live items of the XML - text of w:t, tabs, hyphens, mapped symbols, "
+            "note and comment references, in reading order, with deleted-paragraph merging, text boxes after their host paragraph, and w:del / instrText / non-fallback alternate content left out - "
+            "against a specification written on the XML alone (Proofs/LiveSpec.v), the reader's dispatch table entering through a computed check of the table regenerated from body_xml.py; "
+            "(converter) the text of whatever the visitor emits is the reading-order text, strip_empty and collapse keep text, the writer's output lexes back to it; "
+            "(end to end, C01_end_to_end) for every source and options whose style map in force has no `!`, no :separator and plain names, the text of the HTML convert_to_html returns "
+            "= rendering of the body's live items ([k] at the k-th note reference) ++ notes ++ comments, the notes being those the body references, in order. "
+            "The statements are also evaluated in Coq on every generated package, and an independent Python live-text function is compared with the implementation's output.",
+            BASE_NOTE + "Domain of the reader theorem: a deleted paragraph mark is directly followed by a paragraph in the same container; vertical-merge continuation cells hold only their properties and empty paragraphs. "
+            "With `!` mappings (text allowed to disappear) the converter half is the walk specification (C01_element_text); extract_raw_text's paragraph separators are covered by correspondence and the oracle.",
+            "DESIGN.md §5 C01, §15"),
     "C03": ("proof",
             "Coq proof of the decision rules (first match, concatenation order, matcher iff-specs) + end-to-end correspondence with marker-class oracle",
             "Theorems: find_style returns the first matching mapping and distributes over ++; read_options yields explicit ++ embedded ++ defaults for every text; "
@@ -101,7 +105,7 @@ CHECKS = {
             "Theorems (see evidence for which are discharged): escapes decode back to arbitrary characters; the parser maps the intended token list to exactly the denotation; the tokeniser cuts the printed "
             "text into exactly the intended tokens; hence read(print m) = denote m. Every generated mapping is printed by the harness's own printer, compared with the Coq printer's text, parsed by the "
             "implementation and compared with denote (in Coq) and with the README meaning (in Python).",
-            BASE_NOTE + "Domain: identifiers without raw whitespace other than \\n \\r \\t; attribute names distinct and not `class` next to classes; list level within the interpreter's int-digit limit.",
+            BASE_NOTE + "Domain: identifiers without raw whitespace other than \\n \\r \\t; attribute names distinct; an explicit class attribute next to class shorthands only when it is non-empty and written before them (oracle; the Coq theorem excludes that combination); list level within the interpreter's int-digit limit.",
             "DESIGN.md §5 C06"),
     "C08": ("proof",
             "Coq facts computed over the default style map regenerated from options.py + refinement theorem collapse(list paths) = stack machine + numbering-resolution equations + end-to-end correspondence with a stack-algorithm block oracle",
@@ -131,11 +135,14 @@ CHECKS = {
             BASE_NOTE + "Byte transport through zipfile and the stdlib base64 is runtime: compared, not proved.",
             "DESIGN.md §5 C17"),
     "C18": ("proof",
-            "audit-hook trace of every conversion compared with the linked images the property allows + Coq decision rules for embedded / linked images",
-            "Theorems: an embedded image never depends on anything outside the package; a relative linked image with an anonymous input is not opened and yields the warning. The runtime clause is checked with sys.addaudithook: "
-            "the open / urllib / socket events outside the interpreter's own files must be exactly the linked images opened, in order, also for packages whose XML parts carry DOCTYPEs with external subsets and external general/parameter entities pointing at canaries.",
+            "Coq non-interference theorems (the result cannot depend on anything outside the package except through link-only images a converter opens) + audit-hook trace of every conversion",
+            "In the model everything outside the package is the source's environment (what opening each external target yields; whether the input has a name). Theorems, for all packages, options and environments: "
+            "a package without link-only blips converts to the same value and messages whatever the environment (html, markdown, raw text); extract_raw_text never depends on the environment; nor does a conversion whose "
+            "image converter does not open images; an embedded image never depends on it; a relative linked image with an anonymous input is not opened and yields the warning. The runtime clause is checked with sys.addaudithook: "
+            "the open / urllib / socket events outside the interpreter's own files must be exactly the linked images opened, in order, also for packages whose XML parts carry DOCTYPEs with external subsets and external "
+            "general/parameter entities pointing at canaries.",
             BASE_NOTE + "expat's refusal to fetch DTDs / entities and everything below open/urlopen is runtime: observed, not proved.",
-            "DESIGN.md §5 C18"),
+            "DESIGN.md §5 C18, §15"),
     "C19": ("proof",
             "Coq proofs over all document trees and all transform functions + in-kernel correspondence of call sequence, result and descendants",
             "Theorems for every f: f is called exactly once per element and, through element_of_type, exactly once per paragraph/run of the original tree; children first; the returned element takes the original's place; other kinds pass through; identity changes nothing; "
